@@ -199,7 +199,7 @@ package remote
 //@ import prometheus "github.com/prometheus/client_golang/prometheus"
 //@ func (*remoteDelivery).attemptMX
 //@   prop C05
-//@   modifies gMXOk, gMXLast, gConnOk, gTLSLast, conn.mxLevel, conn.tlsLevel, *conn.C, conn.vetted, prometheus.CounterVec.MetricVec
+//@   modifies gMXOk, gMXLast, gConnOk, gTLSLast, conn.mxLevel, conn.tlsLevel, *conn.C, conn.vetted, prometheus.CounterVec.MetricVec, gSockErr, gosmtp.SMTPError.Code, gosmtp.SMTPError.EnhancedCode
 //@   ensures result == nil ==> conn.C.cl != nil && !conn.C.sockClosed
 //@   ensures result != nil ==> conn.C.cl == nil || conn.C.sockClosed || (conn.C.cl == old(conn.C.cl) && conn.C.sockClosed == old(conn.C.sockClosed) && conn.vetted == old(conn.vetted))
 //@   requires rd != nil && rd.rt != nil && conn != nil && conn.C != nil && record != nil
@@ -219,7 +219,7 @@ package remote
 //@ func (*mxConn).Close
 //@   prop C05
 //@   requires c != nil && c.C != nil
-//@   modifies *c.C, *c.C.cl
+//@   modifies *c.C, *c.C.cl, gSockErr, gosmtp.SMTPError.Code, gosmtp.SMTPError.EnhancedCode
 //@   ensures c.C.cl == nil || c.C.sockClosed
 // lookupMX: DNS only (trusted frame).
 //@ func (*remoteDelivery).lookupMX
